@@ -1386,3 +1386,7 @@ benign_patch("refactor_s9_16", "benign/set9_refactor16.diff", note="record_read_
 mut("revert_D18", ["C09"], "ORD-19", patch="revert_D18_manual_request_withdrawn_early.diff", note="force_level_compaction withdraws its request while the compaction thread may still be working on it")
 mut("separator_may_equal_next_key", ["C13", "C01"], "GRD-27", patch="separator_may_equal_next_key.diff")
 mut("finalize_before_emptiness_test", ["C13", "C09"], "ORD-20", patch="finalize_before_emptiness_test.diff")
+mut("followers_completed_only_on_success", ["C05", "C09"], "PAIR-16", patch="followers_completed_only_on_success.diff")
+mut("memtable_before_wal_append", ["C05", "C08"], "ORD-2", patch="memtable_before_wal_append.diff")
+mut("every_wal_flagged_last", ["C02", "C01", "C16"], "GRD-28", patch="every_wal_flagged_last.diff")
+mut("final_recovery_flush_not_reported", ["C02", "C08"], "PAIR-17", patch="final_recovery_flush_not_reported.diff")
